@@ -870,7 +870,7 @@ def encoders(run, binp, quick, distinct, samples, dist):
     fixed = ["", "x", "SET SHARD", "SELECT 1", "a" * 255, "a" * 256, "b" * 4000, "with\0nul", "é中", "'", "\\"]
     if not quick:
         fixed.append("z" * 20000)
-    texts = fixed + [rand_text(rng, rng.choice([0, 1, 2, 5, 17, 64, 300])) for _ in range(100 if quick else 3000)]
+    texts = fixed + [rand_text(rng, rng.choice([0, 1, 2, 5, 17, 64, 300])) for _ in range(100 if quick else 1000)]
     for t in texts:
         u = rand_text(rng, rng.choice([0, 1, 7, 40])) if rng.random() < 0.7 else rng.choice(fixed)
         items.append(("ok", t, ""))
